@@ -198,6 +198,15 @@ def _pyval(e):
     return None
 
 
+def _infinite(o):
+    """+1 / -1 for a concrete IEEE infinity operand, 0 otherwise."""
+    if isinstance(o, float) and o != o:
+        raise Unsupported("NaN operand")
+    if isinstance(o, float) and o in (float('inf'), float('-inf')):
+        return 1 if o > 0 else -1
+    return 0
+
+
 class _Num(Sym):
     __slots__ = ()
 
@@ -250,15 +259,23 @@ class _Num(Sym):
         return mk_bool(fn(a, b))
 
     def __add__(self, o):
+        if _infinite(o):
+            return o                      # finite + inf = inf: a symbolic real is finite
         return self._bin(o, lambda a, b: a + b)
 
     def __radd__(self, o):
+        if _infinite(o):
+            return o
         return self._bin(o, lambda a, b: b + a)
 
     def __sub__(self, o):
+        if _infinite(o):
+            return -o
         return self._bin(o, lambda a, b: a - b)
 
     def __rsub__(self, o):
+        if _infinite(o):
+            return o
         return self._bin(o, lambda a, b: b - a)
 
     def __mul__(self, o):
@@ -309,25 +326,37 @@ class _Num(Sym):
         raise Unsupported("power with exponent %r" % (p,))
 
     def __lt__(self, o):
+        if _infinite(o):
+            return _infinite(o) > 0
         return self._cmp(o, lambda a, b: a < b)
 
     def __le__(self, o):
+        if _infinite(o):
+            return _infinite(o) > 0
         return self._cmp(o, lambda a, b: a <= b)
 
     def __gt__(self, o):
+        if _infinite(o):
+            return _infinite(o) < 0
         return self._cmp(o, lambda a, b: a > b)
 
     def __ge__(self, o):
+        if _infinite(o):
+            return _infinite(o) < 0
         return self._cmp(o, lambda a, b: a >= b)
 
     def __eq__(self, o):
         if o is None:
+            return False
+        if _infinite(o):
             return False
         r = self._cmp(o, lambda a, b: a == b)
         return False if r is NotImplemented else r
 
     def __ne__(self, o):
         if o is None:
+            return True
+        if _infinite(o):
             return True
         r = self._cmp(o, lambda a, b: a != b)
         return True if r is NotImplemented else r
@@ -517,6 +546,10 @@ class SymReal(_Num):
 def mk_int(e, tag='int'):
     e = z3.simplify(e)
     if z3.is_int_value(e):
+        if tag in UNSIGNED:
+            r = SymInt(e, tag)           # a concrete value that is still an unsigned NumPy scalar
+            r._conc = e.as_long()
+            return r
         return e.as_long()
     return SymInt(e, tag)
 
